@@ -764,6 +764,28 @@ def tables(repo):
         for e in edges[k]:
             if e['callee'] in idx:
                 es.add((idx[k], idx[e['callee']], e['br'], e['da'], bool(e['chk'])))
+    # self-test of the extraction: the entry points exist and the graph has not collapsed (an extractor that
+    # stops seeing calls would make every certificate trivially true)
+    succ = {}
+    for (a, b, _, _, _) in es:
+        succ.setdefault(a, set()).add(b)
+    for root in ('parse_kip', 'parse_kql', 'parse_kml', 'parse_meta', 'parse_json'):
+        key = 'parser::' + root
+        if key not in idx:
+            lost(G, 'entry point ' + root)
+            continue
+        seen, todo = {idx[key]}, [idx[key]]
+        while todo:
+            x = todo.pop()
+            for y in succ.get(x, ()):
+                if y not in seen:
+                    seen.add(y)
+                    todo.append(y)
+        floor = {'parse_kip': 90, 'parse_kql': 45, 'parse_kml': 60, 'parse_meta': 35, 'parse_json': 12}[root]
+        if len(seen) < floor:
+            lost(G, 'call graph below %s collapsed: %d functions reachable (floor %d)' % (root, len(seen), floor))
+    if not any(br for (_, _, br, _, _) in es) or not any(da == 'DInc' for (_, _, _, da, _) in es):
+        lost(G, 'no bracket-guarded / depth-counted call found')
     return {'nodes': nodes, 'edges': sorted(es), 'carrying': sorted(idx[k] for k in carrying if k in idx),
             'walkers': walkers, 'budget': bf,
             'roots': [idx[k] for k in nodes if k.startswith('parser::parse_')]}
@@ -773,7 +795,7 @@ def generate(repo):
     t = tables(repo)
     bf = t['budget']
     out = [HEADER, 'From Coq Require Import List String NArith.\nFrom Verif Require Import Kip.CallGraph.\n'
-                   'Import ListNotations.\nOpen Scope string_scope.\n\n']
+                   'Import ListNotations.\nLocal Open Scope string_scope.\n\n']
     out.append('Definition MAX_KIP_INPUT_LEN : N := %d%%N.\n' % bf.get('MAX_KIP_INPUT_LEN', 0))
     out.append('Definition MAX_KIP_NESTING_DEPTH : nat := %d.\n' % bf.get('MAX_KIP_NESTING_DEPTH', 0))
     out.append('Definition budget_len_strict : bool := %s.\n' % ('true' if bf.get('len_strict') else 'false'))
